@@ -246,6 +246,9 @@ class Normaliser:
                 if fn0 in COMBINATORS and self._desugar_combinator(bj, x, fn0):
                     changed = True; inlined.append('desugar:' + fn0)
                     continue
+                if fn0 in VALUE_COMBINATORS and self._desugar_value_combinator(bj, x, fn0):
+                    changed = True; inlined.append('desugar:' + fn0)
+                    continue
                 # a closure built in this body and invoked here
                 fn = strip_generics(c.get('fn', ''))
                 if fn in ('std::ops::Fn::call', 'std::ops::FnMut::call_mut', 'std::ops::FnOnce::call_once') and t.get('args'):
@@ -335,6 +338,141 @@ class Normaliser:
             mv = {'k': {'v': miss_value, 'ty': 'bool'}}
         bj['blocks'].append({'cleanup': False, 'stmts': [{'k': 'assign', 'p': copy.deepcopy(t['dest']), 'rv': {'k': 'use', 'op': mv}, 'line': line}],
                              'term': {'k': 'goto', 't': t['t'], 'line': line}})
+        bj['blocks'].append({'cleanup': False, 'stmts': [], 'term': {'k': 'unreachable', 'line': line}})
+        return True
+
+
+    def _desugar_value_combinator(self, bj, x, fn0):
+        """`c.then_some(v)` => if c { Some(v) } else { None };  `o.ok_or(e)` / `o.ok_or_else(f)` => match o { Some(v) => Ok(v),
+        None => Err(e | f()) }: the branch these stand for becomes a switch that the path rules can follow"""
+        blk = bj['blocks'][x]
+        t = blk['term']
+        args = t.get('args', [])
+        if t.get('t') is None or not t.get('dest'):
+            return False
+        tail = fn0.split('::')[-1]
+        if tail in ('unwrap_or_default', 'unwrap_or', 'unwrap_or_else', 'map_or_else'):
+            return self._desugar_option_default(bj, x, tail)
+        if len(args) != 2:
+            return False
+        line = t.get('line', 0)
+        dest = t['dest']
+        dty = dest.get('ty', '') or bj['locals'][dest['l']]['ty']
+        nb = len(bj['blocks'])
+        def agg(adt, variant, ops):
+            return {'k': 'assign', 'p': copy.deepcopy(dest), 'rv': {'k': 'agg', 'ak': 'adt', 'adt': adt, 'variant': variant, 'fields': [str(i) for i in range(len(ops))], 'ops': ops}, 'line': line}
+        if fn0 == 'core::bool::then_some' or fn0.endswith('bool::then_some'):
+            c, v = args
+            lc = self._new_local(bj, 'bool', line)
+            blk['stmts'].append(_assign(lc, copy.deepcopy(c), line))
+            lv = None
+            if 'k' not in v and ((v.get('m') or v.get('c')) or {}).get('pr'):
+                vp = v.get('m') or v.get('c')
+                lv = self._new_local(bj, vp.get('ty', ''), line, like=vp['l'] if not vp.get('pr') else None)
+                blk['stmts'].append(_assign(lv, copy.deepcopy(v), line))
+            vop = copy.deepcopy(v) if lv is None else {'m': {'l': lv, 'pr': [], 'own': [], 'ty': bj['locals'][lv]['ty']}}
+            blk['term'] = {'k': 'switch', 'd': {'m': {'l': lc, 'pr': [], 'own': [], 'ty': 'bool'}}, 'arms': [['0', nb + 1]], 'otherwise': nb, 'dty': 'bool', 'line': line, 'desugared': fn0}
+            bj['blocks'].append({'cleanup': False, 'stmts': [agg('std::option::Option', 'Some', [vop])], 'term': {'k': 'goto', 't': t['t'], 'line': line}})
+            bj['blocks'].append({'cleanup': False, 'stmts': [agg('std::option::Option', 'None', [])], 'term': {'k': 'goto', 't': t['t'], 'line': line}})
+            return True
+        # Option::ok_or / ok_or_else
+        o, e = args
+        op_place = o.get('m') or o.get('c')
+        if op_place is None:
+            return False
+        oty = op_place.get('ty', '') or bj['locals'][op_place['l']]['ty']
+        if not oty.startswith('std::option::Option<'):
+            return False
+        pay_ty = split_generic_args(oty)[0]
+        lo_ = self._new_local(bj, oty, line, like=op_place['l'] if not op_place.get('pr') else None)
+        ld = self._new_local(bj, 'isize', line)
+        blk['stmts'].append(_assign(lo_, copy.deepcopy(o), line))
+        le = None
+        if 'k' not in e and ((e.get('m') or e.get('c')) or {}).get('pr'):
+            ep = e.get('m') or e.get('c')
+            le = self._new_local(bj, ep.get('ty', ''), line, like=ep['l'] if not ep.get('pr') else None)
+            blk['stmts'].append(_assign(le, copy.deepcopy(e), line))
+        oplace = {'l': lo_, 'pr': [], 'own': [], 'ty': oty}
+        blk['stmts'].append({'k': 'assign', 'p': {'l': ld, 'pr': [], 'own': [], 'ty': 'isize'}, 'rv': {'k': 'discr', 'p': copy.deepcopy(oplace)}, 'line': line})
+        variants = {'0': 'None', '1': 'Some'}
+        b_some, b_none, b_un, b_err = nb, nb + 1, nb + 2, nb + 3
+        blk['term'] = {'k': 'switch', 'd': {'m': {'l': ld, 'pr': [], 'own': [], 'ty': 'isize'}}, 'arms': [['0', b_none], ['1', b_some]], 'otherwise': b_un, 'dty': 'isize',
+                       'on': copy.deepcopy(oplace), 'adt': 'std::option::Option', 'variants': variants, 'line': line, 'desugared': fn0}
+        pay = {'l': lo_, 'pr': ['@Some', '.0'], 'own': [None, 'std::option::Option'], 'ty': pay_ty}
+        bj['blocks'].append({'cleanup': False, 'stmts': [agg('std::result::Result', 'Ok', [{'m': pay}])], 'term': {'k': 'goto', 't': t['t'], 'line': line}})
+        eop = copy.deepcopy(e) if le is None else {'m': {'l': le, 'pr': [], 'own': [], 'ty': bj['locals'][le]['ty']}}
+        if fn0.endswith('ok_or_else'):
+            ety = split_generic_args(dty)[1] if dty.startswith('std::result::Result<') and len(split_generic_args(dty)) > 1 else ''
+            lerr = self._new_local(bj, ety, line)
+            ltup = self._new_local(bj, '()', line)
+            if 'k' not in e:
+                callee = {'k': {'v': 'std::ops::FnOnce::call_once', 'ty': '', 'fn': 'std::ops::FnOnce::call_once', 'fn_inst': 'std::ops::FnOnce::call_once', 'targs': []}}
+                cargs = [eop, {'m': {'l': ltup, 'pr': [], 'own': [], 'ty': '()'}}]
+                pre = [{'k': 'assign', 'p': {'l': ltup, 'pr': [], 'own': [], 'ty': '()'}, 'rv': {'k': 'agg', 'ak': 'tuple', 'ops': []}, 'line': line}]
+            else:
+                callee = copy.deepcopy(e); cargs = []; pre = []
+            bj['blocks'].append({'cleanup': False, 'stmts': pre, 'term': {'k': 'call', 'f': callee, 'args': cargs, 'dest': {'l': lerr, 'pr': [], 'own': [], 'ty': ety}, 't': b_err, 'u': t.get('u', 'continue'), 'line': line}})
+            bj['blocks'].append({'cleanup': False, 'stmts': [], 'term': {'k': 'unreachable', 'line': line}})
+            bj['blocks'].append({'cleanup': False, 'stmts': [agg('std::result::Result', 'Err', [{'m': {'l': lerr, 'pr': [], 'own': [], 'ty': ety}}])], 'term': {'k': 'goto', 't': t['t'], 'line': line}})
+        else:
+            bj['blocks'].append({'cleanup': False, 'stmts': [agg('std::result::Result', 'Err', [eop])], 'term': {'k': 'goto', 't': t['t'], 'line': line}})
+            bj['blocks'].append({'cleanup': False, 'stmts': [], 'term': {'k': 'unreachable', 'line': line}})
+        return True
+
+
+    def _desugar_option_default(self, bj, x, tail):
+        """`o.unwrap_or_default()` / `o.unwrap_or(v)` / `o.unwrap_or_else(f)` / `o.map_or_else(d, f)` => match o { Some(v) => v | f(v),
+        None => Default::default() | v | f() | d() }"""
+        blk = bj['blocks'][x]
+        t = blk['term']
+        args = t.get('args', [])
+        want = {'unwrap_or_default': 1, 'unwrap_or': 2, 'unwrap_or_else': 2, 'map_or_else': 3}[tail]
+        if len(args) != want:
+            return False
+        o = args[0]
+        op_place = o.get('m') or o.get('c')
+        if op_place is None:
+            return False
+        oty = op_place.get('ty', '') or bj['locals'][op_place['l']]['ty']
+        if not oty.startswith('std::option::Option<'):
+            return False
+        line = t.get('line', 0)
+        dest = t['dest']
+        dty = dest.get('ty', '') or bj['locals'][dest['l']]['ty']
+        pay_ty = split_generic_args(oty)[0]
+        lo_ = self._new_local(bj, oty, line, like=op_place['l'] if not op_place.get('pr') else None)
+        ld = self._new_local(bj, 'isize', line)
+        blk['stmts'].append(_assign(lo_, copy.deepcopy(o), line))
+        oplace = {'l': lo_, 'pr': [], 'own': [], 'ty': oty}
+        blk['stmts'].append({'k': 'assign', 'p': {'l': ld, 'pr': [], 'own': [], 'ty': 'isize'}, 'rv': {'k': 'discr', 'p': copy.deepcopy(oplace)}, 'line': line})
+        nb = len(bj['blocks'])
+        b_some, b_none, b_un = nb, nb + 1, nb + 2
+        blk['term'] = {'k': 'switch', 'd': {'m': {'l': ld, 'pr': [], 'own': [], 'ty': 'isize'}}, 'arms': [['0', b_none], ['1', b_some]], 'otherwise': b_un, 'dty': 'isize',
+                       'on': copy.deepcopy(oplace), 'adt': 'std::option::Option', 'variants': {'0': 'None', '1': 'Some'}, 'line': line, 'desugared': tail}
+        pay = {'l': lo_, 'pr': ['@Some', '.0'], 'own': [None, 'std::option::Option'], 'ty': pay_ty}
+        call_once = {'k': {'v': 'std::ops::FnOnce::call_once', 'ty': '', 'fn': 'std::ops::FnOnce::call_once', 'fn_inst': 'std::ops::FnOnce::call_once', 'targs': []}}
+        def call_blk(fop, arg_ops, pre):
+            if 'k' in fop:
+                return {'cleanup': False, 'stmts': pre, 'term': {'k': 'call', 'f': copy.deepcopy(fop), 'args': arg_ops, 'dest': copy.deepcopy(dest), 't': t['t'], 'u': t.get('u', 'continue'), 'line': line}}
+            ltup = self._new_local(bj, '(..)', line)
+            pre = pre + [{'k': 'assign', 'p': {'l': ltup, 'pr': [], 'own': [], 'ty': ''}, 'rv': {'k': 'agg', 'ak': 'tuple', 'ops': arg_ops}, 'line': line}]
+            return {'cleanup': False, 'stmts': pre, 'term': {'k': 'call', 'f': copy.deepcopy(call_once), 'args': [copy.deepcopy(fop), {'m': {'l': ltup, 'pr': [], 'own': [], 'ty': ''}}], 'dest': copy.deepcopy(dest), 't': t['t'], 'u': t.get('u', 'continue'), 'line': line}}
+        # Some arm
+        if tail == 'map_or_else':
+            lx = self._new_local(bj, pay_ty, line)
+            some_blk = call_blk(args[2], [{'m': {'l': lx, 'pr': [], 'own': [], 'ty': pay_ty}}], [_assign(lx, {'m': pay}, line)])
+        else:
+            some_blk = {'cleanup': False, 'stmts': [{'k': 'assign', 'p': copy.deepcopy(dest), 'rv': {'k': 'use', 'op': {'m': pay}}, 'line': line}], 'term': {'k': 'goto', 't': t['t'], 'line': line}}
+        # None arm
+        if tail == 'unwrap_or':
+            none_blk = {'cleanup': False, 'stmts': [{'k': 'assign', 'p': copy.deepcopy(dest), 'rv': {'k': 'use', 'op': copy.deepcopy(args[1])}, 'line': line}], 'term': {'k': 'goto', 't': t['t'], 'line': line}}
+        elif tail == 'unwrap_or_default':
+            dfn = '<%s as std::default::Default>::default' % dty
+            none_blk = {'cleanup': False, 'stmts': [], 'term': {'k': 'call', 'f': {'k': {'v': dfn, 'ty': '', 'fn': dfn, 'rfn': dfn, 'fn_inst': dfn, 'targs': []}}, 'args': [], 'dest': copy.deepcopy(dest), 't': t['t'], 'u': t.get('u', 'continue'), 'line': line}}
+        else:
+            none_blk = call_blk(args[1], [], [])
+        bj['blocks'].append(some_blk)
+        bj['blocks'].append(none_blk)
         bj['blocks'].append({'cleanup': False, 'stmts': [], 'term': {'k': 'unreachable', 'line': line}})
         return True
 
@@ -651,7 +789,7 @@ def thread_jumps(bj, max_clones=60, enums=()):
             if P.get('cleanup'):
                 continue
             nxt = _succ_normal(P['term'])
-            if nxt is None:
+            if nxt is None and P['term']['k'] != 'switch':
                 continue
             # last constant-bool definition in P that is not overwritten later in P
             flags = {}
@@ -670,6 +808,28 @@ def thread_jumps(bj, max_clones=60, enums=()):
                     flags.pop(l, None)
             flags = {l: v for l, v in flags.items() if l not in addr}
             if not flags:
+                continue
+            # the value of known variant is matched in the very block that builds it (`match Some(x) { .. }`): the switch is decided.
+            # (Boolean constants are deliberately NOT folded here: `if cfg!(debug_assertions)` is a constant tested in its own
+            # block, and the other build takes the other arm - section 23)
+            tP = P['term']
+            if tP['k'] == 'switch' and tP.get('variants') and _bare_local(tP['d']) is not None:
+                dl = _bare_local(tP['d'])
+                src_l = None
+                for s in P['stmts']:
+                    if s['k'] == 'assign' and not s['p'].get('pr') and s['p']['l'] == dl:
+                        rv = s['rv']
+                        src_l = rv['p']['l'] if rv['k'] == 'discr' and not rv['p'].get('pr') else None
+                if src_l is not None and str(flags.get(src_l, '')).startswith('@'):
+                    want = flags[src_l][1:]
+                    idx = [k_ for k_, v_ in tP['variants'].items() if v_ == want]
+                    if idx:
+                        arms = {a: b for a, b in tP['arms']}
+                        P['term'] = {'k': 'goto', 't': arms.get(idx[0], tP['otherwise']), 'line': tP.get('line', 0), 'threaded': True}
+                        changed = True
+                        n_clones += 1
+                        continue
+            if nxt is None:
                 continue
             chain = []
             cur = nxt
@@ -822,6 +982,10 @@ COMBINATORS = {
 }
 
 
+VALUE_COMBINATORS = ('core::bool::then_some', 'std::bool::then_some', 'std::option::Option::ok_or', 'std::option::Option::ok_or_else',
+                     'std::option::Option::unwrap_or_default', 'std::option::Option::unwrap_or', 'std::option::Option::unwrap_or_else', 'std::option::Option::map_or_else')
+
+
 AWAIT_PLUMBING = ('IntoFuture::into_future', 'Pin::new_unchecked', 'Pin::<Ptr>::new_unchecked', 'future::get_context', 'Try::branch', 'Fn::call', 'FnMut::call_mut', 'FnOnce::call_once')
 
 
@@ -896,7 +1060,7 @@ def normalise(prog, crates, keep=()):
     gone_names = {strip_generics(g) for g in gone}
     after = _call_sites(new.values())
     lost = sorted((n_, l_) for (n_, l_) in before - after
-                  if n_ not in gone_names and not n_.endswith(AWAIT_PLUMBING) and n_ not in COMBINATORS and not any(n_ == strip_generics(k) for k in COMBINATORS)
+                  if n_ not in gone_names and not n_.endswith(AWAIT_PLUMBING) and n_ not in COMBINATORS and n_ not in VALUE_COMBINATORS and not any(n_ == strip_generics(k) for k in COMBINATORS)
                   and not any(x in n_ for x in ('IntoFuture', 'new_unchecked', 'get_context', 'Try>::branch', 'Try::branch')))
     prog.normalise_lost = lost
     for c in prog.crates.values():
